@@ -132,7 +132,16 @@ async fn run_script(script: Script) -> Vec<Ev> {
 	let rec = Recorder::new(Arc::new(move || {
 		i64::try_from(start.elapsed().as_millis()).unwrap_or(i64::MAX)
 	}));
-	watchexec_supervisor::verif::set_thread_sink(Some(rec.sink()));
+	{
+		// the filesystem and keyboard workers of the same Watchexec have trace points of their own
+		// (C13's alphabet); they are not part of this family's
+		let inner = rec.sink();
+		watchexec_supervisor::verif::set_thread_sink(Some(Arc::new(move |name, a, b| {
+			if !(name.starts_with("fs_") || name == "cfg_wait") {
+				inner(name, a, b);
+			}
+		})));
+	}
 
 	let mut reset = Ev::new("reset").a(script.id.clone());
 	reset.kids = Some(
